@@ -26,6 +26,7 @@ use rs_matter::dm::clusters::noc::{NodeOperationalCertStatusEnum, OperationalCre
 use rs_matter::dm::devices::test::{TEST_DEV_ATT, TEST_DEV_COMM, TEST_DEV_DET};
 use rs_matter::dm::devices::DEV_TYPE_ROOT_NODE;
 use rs_matter::dm::clusters::binding::{self, BindingHandler, Bindings};
+use rs_matter::dm::clusters::groups::{self, GroupsHandler};
 use rs_matter::dm::clusters::net_comm::NetworkType;
 use rs_matter::dm::clusters::user_label::{self, UserLabelHandler, UserLabels};
 use rs_matter::dm::endpoints::{WifiSysHandlerBuilder, ROOT_ENDPOINT_ID};
@@ -59,7 +60,7 @@ use crate::proto::{Case, Out};
 use crate::simnet::{addr_of, run_sim, Perfect, SimEnd, SimNet};
 
 /// the root endpoint with the system clusters of a Wi-Fi device (so that the network commissioning
-/// commands reach the real `NetCommHandler`), plus an endpoint 1 with the Binding and UserLabel clusters
+/// commands reach the real `NetCommHandler`), plus an endpoint 1 with the Binding, UserLabel and Groups clusters
 struct RootHandler<H>(H);
 
 const EXT_ENDPOINT: u16 = 1;
@@ -68,7 +69,11 @@ impl<H> RootHandler<H> {
     const NODE: Node<'static> = Node {
         endpoints: &[
             Endpoint::new(0, &[DEV_TYPE_ROOT_NODE], clusters!(wifi;)),
-            Endpoint::new(EXT_ENDPOINT, &[DEV_TYPE_ROOT_NODE], clusters!(binding::CLUSTER, user_label::CLUSTER)),
+            Endpoint::new(
+                EXT_ENDPOINT,
+                &[DEV_TYPE_ROOT_NODE],
+                clusters!(binding::CLUSTER, user_label::CLUSTER, <GroupsHandler<'static> as groups::ClusterHandler>::CLUSTER),
+            ),
         ],
     };
 }
@@ -159,6 +164,47 @@ macro_rules! write_attr {
     };
 }
 
+/// a command on endpoint `$ep` whose fields `$body` writes; it answers with an IM status or with a
+/// response struct whose field 0 is a status (0 = Success)
+macro_rules! invoke_raw {
+    ($exchange:expr, $ep:expr, $cluster:expr, $cmd:expr, |$w:ident| $body:expr) => {
+        async {
+            let chunk = $exchange
+                .invoke_with(None, |msg| {
+                    msg.suppress_response(false)?
+                        .timed_request(false)?
+                        .invoke_requests()?
+                        .push()?
+                        .path($ep, $cluster, $cmd)?
+                        .data(|$w| {
+                            $w.start_struct(&TLVTag::Context(CmdDataTag::Data as u8))?;
+                            $body?;
+                            $w.end_container()
+                        })?
+                        .end()?
+                        .end()?
+                        .end()
+                })
+                .await?;
+            let mut good = false;
+            if let Some(resp) = chunk.response()? {
+                if let Some(list) = resp.invoke_responses {
+                    for r in list.iter().take(4) {
+                        match r? {
+                            CmdResp::Status(st) => good = st.status.status == IMStatusCode::Success,
+                            CmdResp::Cmd(c) => {
+                                good = c.data.structure().and_then(|s| s.ctx(0)).and_then(|x| x.u8()).map(|x| x == 0).unwrap_or(false);
+                            }
+                        }
+                    }
+                }
+            }
+            chunk.complete().await?;
+            Ok::<String, Error>(if good { "ok".to_string() } else { "rej".to_string() })
+        }
+    };
+}
+
 /// one boot of the device: run ops from `start` until the case ends or the node restarts
 fn run_boot(h: &HCtx, ops: &[String], start: usize, restarted: bool, lines: &RefCell<Vec<(String, String)>>) -> BootEnd {
     let crypto = test_only_crypto();
@@ -188,6 +234,10 @@ fn run_boot(h: &HCtx, ops: &[String], start: usize, restarted: bool, lines: &Ref
             .chain(
                 EpClMatcher::new(Some(EXT_ENDPOINT), Some(user_label::CLUSTER.id)),
                 Async(UserLabelHandler::new(Dataver::new_rand(&mut dv_rand), EXT_ENDPOINT, &labels).adapt()),
+            )
+            .chain(
+                EpClMatcher::new(Some(EXT_ENDPOINT), Some(<GroupsHandler<'static> as groups::ClusterHandler>::CLUSTER.id)),
+                Async(GroupsHandler::new(Dataver::new_rand(&mut dv_rand)).adapt()),
             ),
     );
     let dm = InteractionModel::new(&*device, &crypto, &*buffers, handler, &kv, &*im_state);
@@ -209,14 +259,48 @@ fn run_boot(h: &HCtx, ops: &[String], start: usize, restarted: bool, lines: &Ref
             v.sort();
             v.into_iter().map(|x| x.1).collect::<Vec<_>>().join(";")
         };
+        // the group table WITH the names (the core dump has the ids only) and the group key sets
+        // (id = start time of epoch key 0 . first byte of epoch key 0)
+        let gnames = |fabrics: &rs_matter::fabric::Fabrics| -> String {
+            let mut v: Vec<(u8, String)> = fabrics
+                .iter()
+                .map(|f| {
+                    let mut gs: Vec<(u16, String)> = f.groups().iter().map(|g| (g.group_id, if g.group_name.is_empty() { "~".to_string() } else { g.group_name.as_str().to_string() })).collect();
+                    gs.sort();
+                    let gs: Vec<String> = gs.into_iter().map(|(id, n)| format!("{}={}", id, n)).collect();
+                    (f.fab_idx().get(), format!("{}:{}", f.fab_idx().get(), if gs.is_empty() { "-".to_string() } else { gs.join("+") }))
+                })
+                .collect();
+            v.sort();
+            v.into_iter().map(|x| x.1).collect::<Vec<_>>().join(";")
+        };
+        let keysets = |fabrics: &rs_matter::fabric::Fabrics| -> String {
+            let mut v: Vec<(u8, String)> = fabrics
+                .iter()
+                .map(|f| {
+                    let mut ks: Vec<(u16, String)> = f
+                        .groups()
+                        .key_set_iter()
+                        .map(|k| (k.group_key_set_id, k.epoch_keys.first().map(|e| format!("{}.{:02x}", e.epoch_start_time, e.epoch_key.access()[0])).unwrap_or_default()))
+                        .collect();
+                    ks.sort();
+                    let ks: Vec<String> = ks.into_iter().map(|(id, n)| format!("{}={}", id, n)).collect();
+                    (f.fab_idx().get(), format!("{}:{}", f.fab_idx().get(), if ks.is_empty() { "-".to_string() } else { ks.join("+") }))
+                })
+                .collect();
+            v.sort();
+            v.into_iter().map(|x| x.1).collect::<Vec<_>>().join(";")
+        };
         let k_mem = device.with_state(|state| keymap(&state.fabrics));
+        let g_mem = device.with_state(|state| gnames(&state.fabrics));
+        let s_mem = device.with_state(|state| keysets(&state.fabrics));
         let mut store = h.kv.clone();
         let mut buf = vec![0u8; 8192];
-        let k_kv = {
+        let (k_kv, g_kv, s_kv) = {
             let mut fabrics = rs_matter::fabric::Fabrics::new();
             match fabrics.load_persist(&mut store, &mut buf) {
-                Ok(()) => keymap(&fabrics),
-                Err(_) => "ERR".to_string(),
+                Ok(()) => (keymap(&fabrics), gnames(&fabrics), keysets(&fabrics)),
+                Err(_) => ("ERR".to_string(), "ERR".to_string(), "ERR".to_string()),
             }
         };
         let bind_str = |b: &Bindings<8>| -> String {
@@ -283,8 +367,8 @@ fn run_boot(h: &HCtx, ops: &[String], start: usize, restarted: bool, lines: &Ref
         }
         ksubs.sort();
         format!(
-            "{} X{{K[{}] KK[{}] B[{}] KB[{}] UL[{}] KUL[{}] NL[{}] KNL[{}] SUB[{}] KSUB[{}]}}",
-            core, k_mem, k_kv, b_mem, b_kv, ul_mem, ul_kv, nl_mem, nl_kv, subs.join(";"), ksubs.join(";")
+            "{} X{{K[{}] KK[{}] G[{}] KG[{}] KS[{}] KKS[{}] B[{}] KB[{}] UL[{}] KUL[{}] NL[{}] KNL[{}] SUB[{}] KSUB[{}]}}",
+            core, k_mem, k_kv, g_mem, g_kv, s_mem, s_kv, b_mem, b_kv, ul_mem, ul_kv, nl_mem, nl_kv, subs.join(";"), ksubs.join(";")
         )
     };
 
@@ -339,7 +423,7 @@ fn run_boot(h: &HCtx, ops: &[String], start: usize, restarted: bool, lines: &Ref
                 }
                 _ => {}
             }
-            let sess_ops = ["open", "arm", "csr", "root", "addnoc", "updnoc", "label", "complete", "rmfab", "revoke", "acl", "net", "rmnet", "bcw", "gkm", "nlabel", "ulabel", "bind", "sub"];
+            let sess_ops = ["open", "arm", "csr", "root", "addnoc", "updnoc", "label", "complete", "rmfab", "revoke", "acl", "net", "rmnet", "bcw", "gkm", "nlabel", "ulabel", "bind", "sub", "addgrp", "ksw"];
             let sid = num(&w, 1) as u32;
             let mut mode = SessionMode::PlainText;
             let mut sess_local: u16 = 0;
@@ -495,10 +579,7 @@ fn run_boot(h: &HCtx, ops: &[String], start: usize, restarted: bool, lines: &Ref
                 }
                 "poll" => "ok".into(),
                 "flush" => {
-                    let r = device.with_state(|state| {
-                        let p = state.verif_parts();
-                        kv.access(|mut store, buf| p.resumption.store_persist(&mut store, buf))
-                    });
+                    let r = device.with_state(|state| state.verif_store_resumption(&kv));
                     if r.is_ok() { "ok".into() } else { "rej".into() }
                 }
                 "kvfail" => {
@@ -665,6 +746,38 @@ fn run_boot(h: &HCtx, ops: &[String], start: usize, restarted: bool, lines: &Ref
                                         wr.u16(&TLVTag::Context(2), 1)?;
                                         wr.end_container()?;
                                     }
+                                    wr.end_container()
+                                })
+                                .await
+                            }
+                            "addgrp" => {
+                                // Groups (0x04) AddGroup (0x00) on endpoint 1: group <gid>, name g<n>. Refused
+                                // (UnsupportedAccess) unless the group key map of the fabric has an entry for
+                                // the group; a second AddGroup for the same endpoint / group re-names the group
+                                let gid = num(&w, 2) as u16;
+                                let name = format!("g{}", num(&w, 3));
+                                invoke_raw!(exchange, EXT_ENDPOINT, 0x04, 0x00, |wr| {
+                                    wr.u16(&TLVTag::Context(0), gid)?;
+                                    wr.utf8(&TLVTag::Context(1), &name)
+                                })
+                                .await
+                            }
+                            "ksw" => {
+                                // GroupKeyManagement (0x3F) KeySetWrite (0x00): key set <id> with one epoch key
+                                // made of the byte <v>, start time 1 + <v> (a second write of the id overwrites)
+                                let id = num(&w, 2) as u16;
+                                let v = num(&w, 3);
+                                let key = [v as u8; 16];
+                                invoke_raw!(exchange, ROOT_ENDPOINT_ID, 0x3f, 0x00, |wr| {
+                                    wr.start_struct(&TLVTag::Context(0))?;
+                                    wr.u16(&TLVTag::Context(0), id)?;
+                                    wr.u8(&TLVTag::Context(1), 0)?;
+                                    wr.str(&TLVTag::Context(2), &key)?;
+                                    wr.u64(&TLVTag::Context(3), 1 + v)?;
+                                    wr.null(&TLVTag::Context(4))?;
+                                    wr.null(&TLVTag::Context(5))?;
+                                    wr.null(&TLVTag::Context(6))?;
+                                    wr.null(&TLVTag::Context(7))?;
                                     wr.end_container()
                                 })
                                 .await
